@@ -215,41 +215,90 @@ theorem desc_of_any {q2' q2 qD : Ctx} (hr : anyRel q2' q2)
 
 /-! ### what a skipped prefix of the subselector does to the anchor -/
 
+theorem LX_head (d : Compound) (X : Complex) (q p : Ctx) (h : LX (.compound d :: X) q p) : mComp d q = true := by
+  match X, h with
+  | [], h => obtain ⟨e, hd⟩ := (LX_single _ _ _).1 h; rw [e]; exact hd
+  | .comb cb :: r, h => exact ((LX_comb _ _ _ _ _).1 h).1
+  | .compound c :: r, h => exact ((LX_desc _ _ _ _ _).1 h).1
+
+/-- Skipping a prefix `sk` of the subselector: the compound `d` after it is anchored at some `qD`
+    related to the anchor `q` of the prefix, and the prefix together with `d` is itself matched
+    between `q` and `qD` (this is what the `parents` argument of complex.rs:170/190 stands for). -/
 theorem skip_prefix (d : Compound) (brest : Complex) (p : Ctx) :
     ∀ (n : Nat) (sk : Complex) (q : Ctx), sk.length ≤ n → LX (sk ++ .compound d :: brest) q p →
       ∃ qD, LX (.compound d :: brest) qD p ∧ anyRel qD q ∧ (sibChain sk = true → sibRel qD q) ∧
-        (sk = [] → qD = q) := by
+        (sk = [] → qD = q) ∧ (sk ≠ [] → LX (sk ++ [.compound d]) q qD) := by
   intro n
   induction n with
   | zero =>
     intro sk q hl h
     have : sk = [] := List.eq_nil_of_length_eq_zero (Nat.le_zero.1 hl)
     subst this
-    exact ⟨q, h, anyRel_refl q, fun _ => sibRel_refl q, fun _ => rfl⟩
+    exact ⟨q, h, anyRel_refl q, fun _ => sibRel_refl q, fun _ => rfl, fun hne => absurd rfl hne⟩
   | succ n ih =>
     intro sk q hl h
     match sk, hl, h with
-    | [], _, h => exact ⟨q, h, anyRel_refl q, fun _ => sibRel_refl q, fun _ => rfl⟩
+    | [], _, h => exact ⟨q, h, anyRel_refl q, fun _ => sibRel_refl q, fun _ => rfl, fun hne => absurd rfl hne⟩
     | .comb cb :: _, _, h => exact absurd h (LX_comb_head _ _ _ _)
     | [.compound c], _, h =>
       simp only [List.singleton_append] at h
-      obtain ⟨_, q2, hq, hl2⟩ := (LX_desc _ _ _ _ _).1 h
-      exact ⟨q2, hl2, step_anyRel hq, by simp [sibChain], by simp⟩
+      obtain ⟨hc, q2, hq, hl2⟩ := (LX_desc _ _ _ _ _).1 h
+      refine ⟨q2, hl2, step_anyRel hq, by simp [sibChain], by simp, fun _ => ?_⟩
+      exact (LX_desc _ _ _ _ _).2 ⟨hc, q2, hq, (LX_single _ _ _).2 ⟨rfl, LX_head _ _ _ _ hl2⟩⟩
     | .compound c :: .comb cb :: sk', hl, h =>
       simp only [List.cons_append] at h
-      obtain ⟨_, q2, hq, hl2⟩ := (LX_comb _ _ _ _ _).1 h
+      obtain ⟨hc, q2, hq, hl2⟩ := (LX_comb _ _ _ _ _).1 h
       have hlen : sk'.length ≤ n := by simp only [List.length_cons] at hl; omega
-      obtain ⟨qD, h1, h2, h3, _⟩ := ih sk' q2 hlen hl2
-      refine ⟨qD, h1, anyRel_trans h2 (step_anyRel hq), ?_, by simp⟩
-      intro hs
-      simp only [sibChain, Bool.and_eq_true, bne_iff_ne, ne_eq] at hs
-      exact sibRel_trans (h3 hs.2) (step_sibRel hs.1 hq)
+      obtain ⟨qD, h1, h2, h3, h4, h5⟩ := ih sk' q2 hlen hl2
+      refine ⟨qD, h1, anyRel_trans h2 (step_anyRel hq), ?_, by simp, fun _ => ?_⟩
+      · intro hs
+        simp only [sibChain, Bool.and_eq_true, bne_iff_ne, ne_eq] at hs
+        exact sibRel_trans (h3 hs.2) (step_sibRel hs.1 hq)
+      · simp only [List.cons_append]
+        refine (LX_comb _ _ _ _ _).2 ⟨hc, q2, hq, ?_⟩
+        by_cases hsk : sk' = []
+        · subst hsk
+          have := h4 rfl
+          subst this
+          exact (LX_single _ _ _).2 ⟨rfl, LX_head _ _ _ _ h1⟩
+        · exact h5 hsk
     | .compound c :: .compound c' :: sk', hl, h =>
       simp only [List.cons_append] at h
-      obtain ⟨_, q2, hq, hl2⟩ := (LX_desc _ _ _ _ _).1 h
+      obtain ⟨hc, q2, hq, hl2⟩ := (LX_desc _ _ _ _ _).1 h
       have hlen : (Component.compound c' :: sk').length ≤ n := by simp only [List.length_cons] at hl ⊢; omega
-      obtain ⟨qD, h1, h2, _, _⟩ := ih (.compound c' :: sk') q2 hlen (by simpa using hl2)
-      exact ⟨qD, h1, anyRel_trans h2 (step_anyRel hq), by simp [sibChain], by simp⟩
+      obtain ⟨qD, h1, h2, _, _, h5⟩ := ih (.compound c' :: sk') q2 hlen (by simpa using hl2)
+      refine ⟨qD, h1, anyRel_trans h2 (step_anyRel hq), by simp [sibChain], by simp, fun _ => ?_⟩
+      simp only [List.cons_append]
+      exact (LX_desc _ _ _ _ _).2 ⟨hc, q2, hq, by simpa using h5 (by simp)⟩
+
+/-- what the superselector test of one compound may assume about its `parents` argument: together
+    with the compound they form a complex selector matched at the same context (unless they start
+    with a combinator, in which case every nested walk answers `false`) -/
+def Hps (ps : Complex) (d : Compound) (q : Ctx) : Prop :=
+  match ps with
+  | .comb _ :: _ => True
+  | _ => matchesComplex (ps ++ [.compound d]) q = true
+
+theorem Hps_of_match (ps : Complex) (d : Compound) (q : Ctx)
+    (h : matchesComplex (ps ++ [.compound d]) q = true) : Hps ps d q := by
+  unfold Hps
+  split
+  · trivial
+  · exact h
+
+theorem Hps_of_prefix (sk : Complex) (d : Compound) (q qD : Ctx) (hd : mComp d qD = true)
+    (h : sk ≠ [] → LX (sk ++ [.compound d]) q qD) : Hps (sk.drop 1) d qD := by
+  match sk, h with
+  | [], _ => simp [Hps, matchesComplex_iff]; exact ⟨qD, (LX_single _ _ _).2 ⟨rfl, hd⟩⟩
+  | [x], _ => simp [Hps, matchesComplex_iff]; exact ⟨qD, (LX_single _ _ _).2 ⟨rfl, hd⟩⟩
+  | x :: .comb cb :: r, _ => simp [Hps]
+  | .comb cb :: .compound c :: r, h => exact absurd (h (by simp)) (LX_comb_head _ _ _ _)
+  | .compound c0 :: .compound c :: r, h =>
+    have h' := h (by simp)
+    simp only [List.cons_append] at h'
+    obtain ⟨_, q2, _, hl2⟩ := (LX_desc _ _ _ _ _).1 h'
+    simp only [List.drop_succ_cons, List.drop_zero, Hps]
+    exact (matchesComplex_iff _ _).2 ⟨q2, by simpa using hl2⟩
 
 theorem relOK_of_skip {prev : Option Rel} {sk : Complex} {qD q : Ctx} (hok : okSkip prev sk = true)
     (h2 : anyRel qD q) (h3 : sibChain sk = true → sibRel qD q) (h4 : sk = [] → qD = q) : RelOK prev qD q := by
@@ -367,7 +416,7 @@ theorem getLast_split {α : Type} : ∀ (b : List α) (d : α), b.getLast? = som
       rw [← this]
 
 theorem walk_sound (sup : Compound → Compound → Complex → Bool) (P : Compound → Prop)
-    (hsup : ∀ c d ps q, P c → sup c d ps = true → mComp d q = true → mComp c q = true) :
+    (hsup : ∀ c d ps q, P c → sup c d ps = true → mComp d q = true → Hps ps d q → mComp c q = true) :
     ∀ (n : Nat) (a : Complex) (prev : Option Rel) (b : Complex), a.length ≤ n →
       (∀ c, Component.compound c ∈ a → P c) →
       -- the `remaining1 == 3 && remaining2 > 3` guard of the previous round (complex.rs:264)
@@ -417,10 +466,11 @@ theorem walk_sound (sup : Compound → Compound → Complex → Bool) (P : Compo
               have : b.dropLast = [] := List.eq_nil_of_length_eq_zero (by simp; omega)
               rw [this]; rfl
         rw [hsplit] at hb
-        obtain ⟨qD, h1, h2, h3, h4⟩ := skip_prefix d [] p _ b.dropLast q (Nat.le_refl _) hb
+        have hps : Hps b.dropLast d p := Hps_of_match _ _ _ ((matchesComplex_iff _ _).2 ⟨q, hb⟩)
+        obtain ⟨qD, h1, h2, h3, h4, h5⟩ := skip_prefix d [] p _ b.dropLast q (Nat.le_refl _) hb
         obtain ⟨e, hd⟩ := (LX_single _ _ _).1 h1
         subst e
-        refine ⟨qD, (LX_single _ _ _).2 ⟨rfl, hsup c1 d _ qD (hP c1 (by simp)) hw hd⟩, ?_⟩
+        refine ⟨qD, (LX_single _ _ _).2 ⟨rfl, hsup c1 d _ qD (hP c1 (by simp)) hw hd hps⟩, ?_⟩
         exact relOK_of_skip hok h2 h3 h4
       · cases hw
     | .compound c1 :: .comb cb1 :: a', hl, hP, _, hw =>
@@ -456,12 +506,12 @@ theorem walk_sound (sup : Compound → Compound → Complex → Bool) (P : Compo
                     omega
                   rw [e2] at hb
                   have hok := okSkip_of_compat hcomp hb
-                  obtain ⟨qD, h1, h2, h3, h4⟩ := skip_prefix d _ p _ sk q (Nat.le_refl _) hb
+                  obtain ⟨qD, h1, h2, h3, h4, h5⟩ := skip_prefix d _ p _ sk q (Nat.le_refl _) hb
                   obtain ⟨hd, q2, hq2, hrest⟩ := (LX_comb _ _ _ _ _).1 h1
                   have hlen : a'.length ≤ n := by simp only [List.length_cons] at hl; omega
                   obtain ⟨q2', hl', hrel⟩ := ih a' (some cb1.rel) brest' hlen
                     (fun c hc => hP c (by simp [hc])) hinv' hw q2 p hrest
-                  refine ⟨qD, (LX_comb _ _ _ _ _).2 ⟨hsup c1 d _ qD (hP c1 (by simp)) e3 hd, q2', ?_, hl'⟩,
+                  refine ⟨qD, (LX_comb _ _ _ _ _).2 ⟨hsup c1 d _ qD (hP c1 (by simp)) e3 hd (Hps_of_prefix sk d q qD hd h5), q2', ?_, hl'⟩,
                     relOK_of_skip hok h2 h3 h4⟩
                   cases cb1 with
                   | child =>
@@ -500,7 +550,7 @@ theorem walk_sound (sup : Compound → Compound → Complex → Bool) (P : Compo
             have hok := okSkip_of_compat hcomp hb
             have hnd : ∀ (x y : Complex), strictPrev (some Rel.desc) → x.length = 1 → y.length ≤ 1 := by
               intro _ _ h; rcases h with h | h | h <;> cases h
-            obtain ⟨qD, h1, h2, h3, h4⟩ := skip_prefix d _ p _ sk q (Nat.le_refl _) hb
+            obtain ⟨qD, h1, h2, h3, h4, h5⟩ := skip_prefix d _ p _ sk q (Nat.le_refl _) hb
             have hlen : (Component.compound c2 :: a'').length ≤ n := by
               simp only [List.length_cons] at hl ⊢; omega
             have hP' : ∀ c, Component.compound c ∈ (Component.compound c2 :: a'') → P c :=
@@ -514,7 +564,7 @@ theorem walk_sound (sup : Compound → Compound → Complex → Bool) (P : Compo
                 subst hcb
                 obtain ⟨hd, q2, hq2, hrest⟩ := (LX_comb _ _ _ _ _).1 h1
                 obtain ⟨q2', hl', hrel⟩ := ih _ (some .desc) brest' hlen hP' (hnd _ _) hw q2 p hrest
-                exact ⟨qD, (LX_desc _ _ _ _ _).2 ⟨hsup c1 d _ qD (hP c1 (by simp)) e3 hd, q2',
+                exact ⟨qD, (LX_desc _ _ _ _ _).2 ⟨hsup c1 d _ qD (hP c1 (by simp)) e3 hd (Hps_of_prefix sk d q qD hd h5), q2',
                   desc_of_any hrel (Or.inr hq2), hl'⟩, relOK_of_skip hok h2 h3 h4⟩
             · rename_i hnc
               match brest, e4, hnc, h1, hw with
@@ -523,7 +573,7 @@ theorem walk_sound (sup : Compound → Compound → Complex → Bool) (P : Compo
               | .compound e :: r, _, _, h1, hw =>
                 obtain ⟨hd, q2, hq2, hrest⟩ := (LX_desc _ _ _ _ _).1 h1
                 obtain ⟨q2', hl', hrel⟩ := ih _ (some .desc) _ hlen hP' (hnd _ _) hw q2 p hrest
-                exact ⟨qD, (LX_desc _ _ _ _ _).2 ⟨hsup c1 d _ qD (hP c1 (by simp)) e3 hd, q2',
+                exact ⟨qD, (LX_desc _ _ _ _ _).2 ⟨hsup c1 d _ qD (hP c1 (by simp)) e3 hd (Hps_of_prefix sk d q qD hd h5), q2',
                   desc_of_any hrel (Or.inl hq2), hl'⟩, relOK_of_skip hok h2 h3 h4⟩
 
 /-! ### reflexivity -/
